@@ -34,8 +34,11 @@ pub enum ReadKind {
     GetNodeIdAt,
     Iter,
     Pretty,
+    /// pretty print into a sink that fails after a few writes (an abandoned formatting run must
+    /// leave nothing behind that a later print, on any thread, could see)
+    PrettyFail,
 }
-pub const KINDS: [ReadKind; 17] = [
+pub const KINDS: [ReadKind; 18] = [
     ReadKind::Ancestors,
     ReadKind::Predecessors,
     ReadKind::Preceding,
@@ -53,6 +56,7 @@ pub const KINDS: [ReadKind; 17] = [
     ReadKind::GetNodeIdAt,
     ReadKind::Iter,
     ReadKind::Pretty,
+    ReadKind::PrettyFail,
 ];
 
 #[derive(Clone, Copy, Debug)]
@@ -228,6 +232,31 @@ pub fn eval(arena: &Arena<String>, r: Read, pause: &dyn Fn()) -> u64 {
             }
             h.u64(arena.count() as u64);
         }
+        ReadKind::PrettyFail => {
+            struct Bounded {
+                left: usize,
+                buf: String,
+            }
+            impl std::fmt::Write for Bounded {
+                fn write_str(&mut self, s: &str) -> std::fmt::Result {
+                    if self.left == 0 {
+                        return Err(std::fmt::Error);
+                    }
+                    self.left -= 1;
+                    self.buf.push_str(s);
+                    Ok(())
+                }
+            }
+            use std::fmt::Write as _;
+            pause();
+            let mut sink = Bounded {
+                left: 2 + usize::from(n) % 4,
+                buf: String::new(),
+            };
+            let r = write!(sink, "{:?}", n.debug_pretty_print(arena));
+            h.u8(r.is_ok() as u8);
+            h.str(&sink.buf);
+        }
         ReadKind::Pretty => {
             pause();
             let s = format!("{:?}", n.debug_pretty_print(arena));
@@ -264,13 +293,29 @@ pub fn build_scenario(seed: u64, threads: usize, reads_per_thread: usize, steps:
         }
         reads.push(v);
     }
-    let expected = reads.iter().map(|v| v.iter().map(|r| eval(&arena, *r, &|| {})).collect()).collect();
+    let expected = expected_of(&arena, &reads);
     Scenario {
         arena,
         live,
         reads,
         expected,
     }
+}
+
+/// single-thread results; the reads that abandon a formatting run are evaluated last, so that the
+/// expectation of every other read is what it yields when nothing was abandoned before it
+pub fn expected_of(arena: &Arena<String>, reads: &[Vec<Read>]) -> Vec<Vec<u64>> {
+    let mut exp: Vec<Vec<u64>> = reads.iter().map(|v| vec![0u64; v.len()]).collect();
+    for pass in 0..2 {
+        for (t, v) in reads.iter().enumerate() {
+            for (i, r) in v.iter().enumerate() {
+                if (r.kind == ReadKind::PrettyFail) == (pass == 1) {
+                    exp[t][i] = eval(arena, *r, &|| {});
+                }
+            }
+        }
+    }
+    exp
 }
 
 /// digest of a scenario (for "distinct scenarios" accounting)
@@ -334,6 +379,8 @@ pub fn build_hammer(seed: u64, threads: usize, reads_per_thread: usize) -> Scena
                 ReadKind::Descendants,
                 ReadKind::GetNodeIdAt,
                 ReadKind::Get,
+                ReadKind::Pretty,
+                ReadKind::PrettyFail,
             ]);
             // each thread prefers its own chain head, so concurrent calls have different arguments
             let node = if i % 2 == 0 { heads[t % heads.len()] } else { *rng.pick(&tops) };
@@ -341,7 +388,7 @@ pub fn build_hammer(seed: u64, threads: usize, reads_per_thread: usize) -> Scena
         }
         reads.push(v);
     }
-    let expected = reads.iter().map(|v| v.iter().map(|r| eval(&a, *r, &|| {})).collect()).collect();
+    let expected = expected_of(&a, &reads);
     Scenario {
         arena: a,
         live,
@@ -447,7 +494,7 @@ pub fn build_phased(seed: u64, threads: usize, reads_per_thread: usize) -> Phase
         }
         reads2.push(v);
     }
-    let exp2 = reads2.iter().map(|v| v.iter().map(|r| eval(&after, *r, &|| {})).collect()).collect();
+    let exp2 = expected_of(&after, &reads2);
     Phased {
         arena,
         edits,
